@@ -286,7 +286,9 @@ class DefaultPredictionStrategy(object):
             kernel_mask = (~missing).to(torch.float)
             kernel_mask = kernel_mask[..., None] * kernel_mask[..., None, :]
             torch.diagonal(kernel_mask, dim1=-2, dim2=-1)[...] = 1
-            kernel = kernel * kernel_mask  # Unfortunately, this makes the kernel dense at the moment.
+            # Unfortunately, this makes the kernel dense at the moment.
+            # (Multiplying the operator itself would treat a `... x 1 x 1` mask as a batch of constants.)
+            kernel = to_linear_operator(to_dense(kernel) * kernel_mask)
             train_labels_offset = settings.observation_nan_policy._fill_tensor(train_labels_offset)
             mean_cache = kernel.solve(train_labels_offset).squeeze(-1)
             mean_cache[missing] = torch.nan  # Ensure that nobody expects these values to be valid.
